@@ -20,7 +20,9 @@ from ..core import cz, clist, copt
 ID = "C15"
 THEOREMS = ["C15_syms_are_D4", "C15_sym_square_bijection", "C15_index_guard", "C15_transform_move_total",
             "C15_move_commutes", "C15_legality_invariant", "C15_winner_invariant",
-            "C15_ply_side_reserves_invariant", "C15_symmetries_spec", "C15_group_action", "C15_example"]
+            "C15_ply_side_reserves_invariant", "C15_symmetries_spec", "C15_group_action", "C15_example",
+            "C15_table_closed_under_syms", "C15_transform_move_injective", "C15_legal_moves_transform",
+            "C15_legal_moves_transform_perm", "C15_rulebook_step_transform", "C15_rulebook_moves_transform"]
 MODEL_TARGETS = ["model/Tak.vo", "model/Road.vo", "model/Symmetry.vo", "model/Harness.vo", "model/Lit.vo"]
 TRUSTED_BASE = [
     "numpy: matmul of small integer matrices is exact; .astype(int) of integer-valued floats < 2^53 is the identity; "
